@@ -51,48 +51,7 @@ def check(ctx, report):
     report.rule('C13.R3', 'the parsed object does not alias the input buffer')
     vector_constructor(ctx, report)
     returned_internals(ctx, report)
-    # ---- R1
-    for c in model.repo_classes():
-        if c.is_subclass_of('builtins.Exception'):
-            continue
-        for name in OBSERVERS:
-            f = c.methods.get(name) if not ctx.thorough else c.resolve(name)
-            if f is None or f.abstract or f.module.external:
-                continue
-            if ctx.thorough and (c.abstract_methods and f.cls is not c):
-                continue
-            if f.kind == 'staticmethod' and name not in ('_json_traverse', '_json_result', '_get_ordered_dict'):
-                pass
-            report.touch(f)
-            try:
-                res = it.run(c, name, side='compose')
-            except RecursionError:
-                report.undecided.append('%s.%s: recursion limit in the analyser' % (c.name, name))
-                continue
-            effs = [n for n in walk(res.block) if isinstance(n, Effect)]
-            report.count('C13.R1', 1, nontrivial=1 if len(list(walk(res.block))) > 2 else 0)
-            for e in effs:
-                where = rooted(e.target)
-                if where is None:
-                    continue
-                if e.what == 'delkey':
-                    continue
-                site_f = e.func
-                site = site_f.construct if site_f is not None else c.construct + '.' + name
-                tgt = target_text(e)
-                if where == 'class':
-                    tgt = 'cls.%s' % (e.args[0] if e.args else '?')
-                if where == 'class' and restored_in_finally(e, res.block):
-                    continue
-                key = '%s@%s[%s]' % (site, e.what, tgt)
-                f0 = report.add('C13.R1', key, '%s' % effect_text(e) if where != 'class' else
-                                'class level state %s is overwritten during an observer and not restored in a finally block' % tgt,
-                                witness={'reached_from': []})
-                for x in report.findings:
-                    if x.key == f0.key and isinstance(x.witness, dict):
-                        lst = x.witness.setdefault('reached_from', [])
-                        if len(lst) < 8 and '%s.%s' % (c.name, name) not in lst:
-                            lst.append('%s.%s' % (c.name, name))
+    observers_pure(ctx, report)
     # ---- R2
     for c in model.repo_classes():
         for fld in c.own_fields:
@@ -133,6 +92,54 @@ def check(ctx, report):
     report.floor('C13.R3', 100, '_parse definitions')
 
 
+def observers_pure(ctx, report, RULE='C13.R1', names=None):
+    """R1 (also used by C05 for ``compose`` and by C14 for the serialisers): effects of an observer on self, on class level
+    state or on its arguments"""
+    model, it = ctx.model, ctx.interp
+    names = OBSERVERS if names is None else names
+    for c in model.repo_classes():
+        if c.is_subclass_of('builtins.Exception'):
+            continue
+        for name in names:
+            f = c.methods.get(name) if not ctx.thorough else c.resolve(name)
+            if f is None or f.abstract or f.module.external:
+                continue
+            if ctx.thorough and (c.abstract_methods and f.cls is not c):
+                continue
+            if f.kind == 'staticmethod' and name not in ('_json_traverse', '_json_result', '_get_ordered_dict'):
+                pass
+            report.touch(f)
+            try:
+                res = it.run(c, name, side='compose')
+            except RecursionError:
+                report.undecided.append('%s.%s: recursion limit in the analyser' % (c.name, name))
+                continue
+            effs = [n for n in walk(res.block) if isinstance(n, Effect)]
+            report.count(RULE, 1, nontrivial=1 if len(list(walk(res.block))) > 2 else 0)
+            for e in effs:
+                where = rooted(e.target)
+                if where is None:
+                    continue
+                if e.what == 'delkey':
+                    continue
+                site_f = e.func
+                site = site_f.construct if site_f is not None else c.construct + '.' + name
+                tgt = target_text(e)
+                if where == 'class':
+                    tgt = 'cls.%s' % (e.args[0] if e.args else '?')
+                if where == 'class' and restored_in_finally(e, res.block):
+                    continue
+                key = '%s@%s[%s]' % (site, e.what, tgt)
+                f0 = report.add(RULE, key, '%s' % effect_text(e) if where != 'class' else
+                                'class level state %s is overwritten during an observer and not put back, in a finally block, on a class named in the source' % tgt,
+                                witness={'reached_from': []})
+                for x in report.findings:
+                    if x.key == f0.key and isinstance(x.witness, dict):
+                        lst = x.witness.setdefault('reached_from', [])
+                        if len(lst) < 8 and '%s.%s' % (c.name, name) not in lst:
+                            lst.append('%s.%s' % (c.name, name))
+
+
 def effect_text(e):
     if e.what == 'mutcall':
         return 'calls %s.%s(...)' % (show(e.target), e.args[0])
@@ -155,6 +162,15 @@ def target_text(e):
 def restored_in_finally(e, block):
     """a class level store is acceptable when the same function restores that attribute in the ``finally`` of a
     try that follows the store (save / swap / try ... finally: restore)"""
+    # the swap is only neutral when it is made on a class named in the source: ``cls`` / ``type(self)`` is the class of
+    # the object at hand, and "restoring" an inherited attribute there leaves a new attribute behind on that subclass
+    tgt = getattr(e.node, 'targets', None) or [getattr(e.node, 'target', None)]
+    for t in tgt:
+        for sub in ([t] + list(getattr(t, 'elts', []) or [])) if t is not None else []:
+            if isinstance(sub, ast.Attribute) and sub.attr == (e.args[0] if e.args else None):
+                owner = sub.value
+                if not (isinstance(owner, ast.Name) and owner.id[:1].isupper()):
+                    return False
     for n in walk(block):
         if isinstance(n, Try) and n.final:
             for x in walk(n.final):
